@@ -67,6 +67,7 @@ def compare_tokens(src, out, case, keep_all=False, ranges=(), what='luamin'):
                         % (what, e, show(src, 160), show(out, 160)), case, 'relex')
     sig_out = reflex.significant(ref_out)
     mapping = {}
+    back = {}
     n = min(len(sig_in), len(sig_out))
     for k in range(n):
         a, b = sig_in[k], sig_out[k]
@@ -96,6 +97,10 @@ def compare_tokens(src, out, case, keep_all=False, ranges=(), what='luamin'):
             if mapping.setdefault(ia, ib) != ib:
                 raise Violation('%s renamed %s both to %s and to %s (%s)'
                                 % (what, show(ia), show(mapping[ia]), show(ib), ctx), case, 'rename-function')
+            if back.setdefault(ib, ia) != ia:
+                # two different identifiers written as one: a different program (details are C02's business)
+                raise Violation('%s writes the different identifiers %s and %s both as %s (%s)'
+                                % (what, show(back[ib]), show(ia), show(ib), ctx), case, 'rename-collision')
     if len(sig_in) != len(sig_out):
         k = n
         extra = sig_out[k] if len(sig_out) > k else sig_in[k]
@@ -210,6 +215,37 @@ def run_case(src, config, keep_body, ranges, case, via='lib', chunked=False):
             res = compare_tokens(src, out, case, keep_all=(config == 'keep_all'), ranges=ranges)
             check_token_count(l_in, out, case)
             return res
+        if via == 'file_p8':
+            from pico8.game import file as pfile
+            from pico8.lua import lua as plua
+            from vlib import cartgen
+            try:
+                g = cartgen.make_game(bytes(0x4300), code=src)
+                outp = os.path.join(td, 'out.p8')
+                pfile.to_file(g, outp, lua_writer_cls=plua.LuaMinifyTokenWriter, lua_writer_args=args)
+            except Exception as e:
+                raise Violation('writing a minified .p8 through file.to_file raised %r -- %s' % (e, show(src, 200)),
+                                case, 'raises')
+            out = reffmt.read_p8(open(outp, 'rb').read())['code']
+            return compare_tokens(src, out, case, keep_all=(config == 'keep_all'), ranges=ranges,
+                                  what='file.to_file(.p8, LuaMinifyTokenWriter)')
+        if via == 'luamin_two_carts':
+            # `p8tool luamin [options] cart1 cart2`: options must apply to every cart of the invocation
+            p1, p2 = os.path.join(td, 'first.p8'), os.path.join(td, 'second.p8')
+            with open(p1, 'wb') as fh:
+                fh.write(reffmt.write_p8(8, b'-- first\nwarmup_name=1 other_name=warmup_name\n', bytes(0x4300)))
+            with open(p2, 'wb') as fh:
+                fh.write(reffmt.write_p8(8, src, bytes(0x4300)))
+            try:
+                rc = tool.main(['luamin'] + cli + [p1, p2])
+            except Exception as e:
+                raise Violation('`p8tool luamin` on two carts raised %r -- %s' % (e, show(src, 200)), case, 'cli-raises')
+            outp = os.path.join(td, 'second_fmt.p8')
+            if rc != 0 or not os.path.exists(outp):
+                raise Violation('`p8tool luamin` on two carts returned %r / wrote no second_fmt.p8' % rc, case, 'cli')
+            out = reffmt.read_p8(open(outp, 'rb').read())['code']
+            return compare_tokens(src, out, case, keep_all=(config == 'keep_all'), ranges=ranges,
+                                  what='`p8tool luamin` (second of two carts)')
         if via in ('luamin_p8', 'luamin_png'):
             ext = '.p8' if via == 'luamin_p8' else '.p8.png'
             path = os.path.join(td, 'cart' + ext)
@@ -274,6 +310,10 @@ def build_program(seed, avoid=()):
         via = 'luamin_png'
     elif v == 2:
         via = 'build'
+    elif v in (3, 4):
+        via = 'file_p8'
+    elif v == 5:
+        via = 'luamin_two_carts'
     chunked = ch.chance(64)
     return lay, mode, config, keep_body, via, chunked, tags
 
@@ -371,6 +411,17 @@ def table_sources():
             src = b'function g(...) x=' + a + sep + b + b' end\n'
             if emit(src):
                 yield src
+    # merge-prone neighbours with only a (dropped) comment, blanks or a line break between them
+    merge_pairs = [(b'x=a -', b'-b'), (b'x=a -', b'-1'), (b'x=a- -', b'-b'), (b'x=t[', b'[[k]] ]'), (b'x={[', b'[[k]] ]=1}'),
+                   (b'x=1', b'..s'), (b'x=0x1f', b'..s'), (b'x=s..', b'.5'), (b'function f(...) x=s ..', b'... end'),
+                   (b'x=5.', b'..s'), (b'x=a /', b'/ b c=1'), (b'x=1', b'e=2'), (b'x=0x1', b'f=2')]
+    for left, right in merge_pairs:
+        for sep in (b' ', b'--[[c]]', b' --[[c]] ', b' --[[c\nd]] ', b'\n', b' -- c\n', b'\t', b' --[[a]]--[[b]] '):
+            if sep.strip() == b'' and b'/ b' in right:
+                continue
+            src = left + sep + right + b'\n'
+            if emit(src):
+                yield src
     for s in (b'f"s"', b"f's'", b'f[[s]]', b'f{}', b'f"a""b"', b'f[[a]][[b]]', b'f{}{}', b'a:m"s"', b'a:m[[s]]',
               b'?"s"', b'?[[s]]', b'?(a)', b'?{a}', b'x=f"s".."t"', b'x=#"s"', b'x=a.b.c', b'x=a . b', b'x=a...b',
               b'function f(...) x=... .. a end', b'function f(...) x=a .. ... end', b'function f(...) x={...} end',
@@ -436,7 +487,7 @@ def vacuity(total, tier):
     msgs = []
     for lab in ('adj_symnum', 'adj_sym_sym', 'adj_number_dot', 'adj_minus_minus', 'adj_bracket_longstring',
                 'line_scoped', 'cfg_default', 'cfg_keep_all', 'cfg_keep_file', 'via_luamin_p8', 'via_luamin_png',
-                'via_build', 'mode_minimal'):
+                'via_build', 'via_file_p8', 'via_luamin_two_carts', 'mode_minimal'):
         if total.classes.get(lab, 0) < 3:
             msgs.append('class %s seen %d times' % (lab, total.classes.get(lab, 0)))
     if total.classes.get('table_cases', 0) < 30000:
